@@ -12,6 +12,7 @@ import xyzpy.gen.combo_runner as cr
 from xyzpy.gen.combo_runner import combo_runner
 from xyzpy.utils import XYZError
 
+CONFORMANCE = ("random",)
 FUNCS = [
     cr.combo_runner, cr.combo_runner_core, cr._unflatten, cr._submit, cr._get_result,
     cr._run_linear_executor, cr._run_linear_sequential,
